@@ -321,6 +321,27 @@ fn run_twin() {
                     };
                     return Some(format!("{} | {}", s1, s2));
                 }
+                // C05: the float-valued comparisons of both sketch types; f64 printed as its bit pattern
+                "rsim" | "rjac" | "rang" => {
+                    let g = *n.get(1)? as usize;
+                    let (x, y) = (v[h].as_ref()?, v.get(g)?.as_ref()?);
+                    let (p, q) = (b[h].as_ref()?, b.get(g)?.as_ref()?);
+                    let (r1, r2) = match w[0] {
+                        "rsim" => {
+                            if n.len() != 4 {
+                                return None;
+                            }
+                            (x.similarity(y, n[2] != 0, n[3] != 0), p.similarity(q, n[2] != 0, n[3] != 0))
+                        }
+                        "rjac" => (x.jaccard(y), p.jaccard(q)),
+                        _ => (x.angular_similarity(y), p.angular_similarity(q)),
+                    };
+                    let f = |r: Result<f64, sourmash::Error>| match r {
+                        Ok(z) => format!("f {}", z.to_bits()),
+                        Err(_) => "f err".to_string(),
+                    };
+                    return Some(format!("{} | {}", f(r1), f(r2)));
+                }
                 "down" => {
                     // down R G scaled
                     if n.len() != 3 {
